@@ -173,6 +173,12 @@ pub fn apply_case<C: NatCtx>(v: &mut Env<C>, s: &Setup<C>, cts: &[Ciphertext<C>]
             ok &= a == b;
         }
         v.h.check(ok, || format!("shuffle output is not the re-encrypted permutation on {} N={} perm={:?} sk={:x}", tok, nn, perm, s.sk));
+    } else {
+        // "for every list of ciphertexts": a valid permutation of a list of any length (0 included) must be applied
+        let mut sorted = perm.to_vec();
+        sorted.sort();
+        let valid = perm.len() == cts.len() && rs.len() >= cts.len() && sorted == (0..cts.len()).collect::<Vec<_>>();
+        v.h.check(!valid, || format!("apply_permutation panics on a valid permutation of a list of {} ciphertexts on {} (perm={:?})", cts.len(), tok, perm));
     }
     res
 }
@@ -345,6 +351,14 @@ pub fn run_c02<C: NatCtx>(v: &mut Env<C>) {
         got.sort();
         let tok = v.tok.clone();
         v.h.check(got == expect, || format!("cascade of shuffles changed the multiset of plaintexts on {} N={}", tok, nn));
+        // gen_shuffle of the empty list (OS randomness: nothing is drawn)
+        if nn == 0 {
+            let ctx = v.ctx.clone();
+            let sh = Shuffler::new(&s.pk, &s.gens, &ctx);
+            let r = std::panic::catch_unwind(std::panic::AssertUnwindSafe(|| sh.gen_shuffle(&[])));
+            let tok = v.tok.clone();
+            v.h.check(matches!(&r, Ok((o, x, p)) if o.is_empty() && x.is_empty() && p.is_empty()), || format!("gen_shuffle of the empty list panics or returns something on {}", tok));
+        }
         // gen_shuffle with injected permutation and exponents
         if nn > 0 {
             let ctx = v.ctx.clone();
